@@ -1486,8 +1486,8 @@ pub fn main_for(property: &str, which: &'static str) {
         let n_drivers: usize = std::env::var("NV_DRIVERS").ok().and_then(|s| s.parse().ok()).unwrap_or(3).clamp(1, 8);
         let pool: Vec<Driver> = if args.replay.is_some() { vec![] } else { (1..n_drivers).map(|_| Driver::spawn(&args.driver)).collect() };
         let mut r = Runner { rep: &mut rep, drv: &mut drv, pool, which, cap, shrink_budget: 1200, max_shrinks: if args.thorough() || search { 400 } else { 24 }, shrinks_done: 0,
-            per_class: Default::default(), max_per_class: if args.thorough() || search { 4 } else { 1 }, shrink_seconds: if args.thorough() || search { 120 } else { 15 },
-            shrink_total_seconds: if args.thorough() || search { 1200 } else { 40 }, shrink_spent: Default::default() };
+            per_class: Default::default(), max_per_class: if args.thorough() || search { 4 } else { 1 }, shrink_seconds: if search { 20 } else if args.thorough() { 120 } else { 15 },
+            shrink_total_seconds: if search { 60 } else if args.thorough() { 1200 } else { 40 }, shrink_spent: Default::default() };
         if let Some(path) = &args.replay {
             let v: Value = serde_json::from_str(&std::fs::read_to_string(path).expect("replay file")).expect("replay json");
             let case = Case::from_json(&v["case"]);
@@ -1497,57 +1497,52 @@ pub fn main_for(property: &str, which: &'static str) {
         }
         let corpus = corpus();
         r.run(&corpus, true);
-        let mut rng = Rng::new(args.seed);
-        let n = if search { 1500 } else if which == "oracle.c01" { args.budget(300, 3000) } else { args.budget(220, 1500) };
-        let mut batch = vec![];
+        // two generated streams with their own random streams: "main" (the stream as it always was) and "interface
+        // hierarchies". Ordinarily main runs first, then the hierarchies. In search mode (P / K broken, a failing INPUT is
+        // wanted) batches alternate main, main, hierarchy, … and the run stops after the first batch with an O failure.
+        let mut main_rng = Rng::new(args.seed);
+        let mut hier_rng = Rng::new(args.seed ^ 0x1FACE_C01);
+        let n_main = if search { 1500 } else if which == "oracle.c01" { args.budget(300, 3000) } else { args.budget(220, 1500) };
+        // (the C02 oracle costs about three times the C01 oracle per case)
+        let n_hier = if search { 400 } else if which == "oracle.c01" { args.budget(60, 500) } else { args.budget(40, 300) };
         // one generated case in `twin_every` is ALSO run with its schema given as an introspection result (no extra draw)
         let twin_every = if which == "oracle.c01" { 4 } else { 6 };
-        for i in 0..n {
-            let (c, schema) = gen_case_full(&mut rng, r.rep, false);
-            if nontrivial(&c.doc) {
-                r.rep.nontrivial(&format!("{}\n{}", c.sdl.join("\n"), c.doc));
-            }
-            if i < 3 {
-                r.rep.sample(json!({"doc": c.doc, "schema_files": c.sdl.len(), "sdl_bytes": c.sdl.iter().map(|s| s.len()).sum::<usize>()}));
-            }
-            if i % twin_every == 1 {
-                if let Some(t) = json_twin(&c, &schema, r.rep) {
-                    batch.push(t);
+        let (mut mi, mut hi, mut slot) = (0usize, 0usize, 0usize);
+        while mi < n_main || hi < n_hier {
+            let take_hier = hi < n_hier && (mi >= n_main || (search && slot % 3 == 2));
+            slot += 1;
+            let mut batch = vec![];
+            while batch.len() < 50 && (if take_hier { hi < n_hier } else { mi < n_main }) {
+                let (c, schema) = gen_case_full(if take_hier { &mut hier_rng } else { &mut main_rng }, r.rep, take_hier);
+                let i = if take_hier { hi } else { mi };
+                if take_hier {
+                    hi += 1;
+                    r.rep.count("origin:interface-hierarchy-stream");
+                    if i < 2 {
+                        r.rep.sample(json!({"stream": "interface-hierarchy", "doc": c.doc, "schema_files": c.sdl}));
+                    }
+                } else {
+                    mi += 1;
+                    if i < 3 {
+                        r.rep.sample(json!({"doc": c.doc, "schema_files": c.sdl.len(), "sdl_bytes": c.sdl.iter().map(|s| s.len()).sum::<usize>()}));
+                    }
                 }
+                if nontrivial(&c.doc) {
+                    r.rep.nontrivial(&format!("{}\n{}", c.sdl.join("\n"), c.doc));
+                }
+                if i % twin_every == if take_hier { 2 } else { 1 } {
+                    if let Some(t) = json_twin(&c, &schema, r.rep) {
+                        batch.push(t);
+                    }
+                }
+                batch.push(c);
             }
-            batch.push(c);
-            if batch.len() >= 50 {
-                r.run(&batch, true);
-                batch.clear();
+            r.run(&batch, true);
+            if search && r.rep.failures.iter().any(|f| f.stream == "O") {
+                r.rep.count("search:stopped-after-first-batch-with-an-O-failure");
+                break;
             }
         }
-        r.run(&batch, true);
-        // stream "interface hierarchies" (own random stream: the generated stream above is unchanged)
-        let mut rng = Rng::new(args.seed ^ 0x1FACE_C01);
-        // (the C02 oracle costs about three times the C01 oracle per case)
-        let n = if search { 400 } else if which == "oracle.c01" { args.budget(60, 500) } else { args.budget(40, 300) };
-        let mut batch = vec![];
-        for i in 0..n {
-            let (c, schema) = gen_case_full(&mut rng, r.rep, true);
-            r.rep.count("origin:interface-hierarchy-stream");
-            if i % twin_every == 2 {
-                if let Some(t) = json_twin(&c, &schema, r.rep) {
-                    batch.push(t);
-                }
-            }
-            if i < 2 {
-                r.rep.sample(json!({"stream": "interface-hierarchy", "doc": c.doc, "schema_files": c.sdl}));
-            }
-            if nontrivial(&c.doc) {
-                r.rep.nontrivial(&format!("{}\n{}", c.sdl.join("\n"), c.doc));
-            }
-            batch.push(c);
-            if batch.len() >= 50 {
-                r.run(&batch, true);
-                batch.clear();
-            }
-        }
-        r.run(&batch, true);
     }
     rep.sample(json!({"doc": "query Q($v: Boolean!) { a { x @skip(if: $v) } a { y @skip(if: $v) } }", "note": "corpus: DESIGN §9-a"}));
     rep.write(&args);
